@@ -1070,8 +1070,7 @@ def reduce_array(data):
             if len(data.dtype.names) == 1:
                 # get a simpler view
                 return data[data.dtype.names[0]]
-    else:
-        return data
+    return data
 
 
 def _match_key(d, key, require=False):
